@@ -117,7 +117,8 @@ impl Prop for C19 {
                 let m = SeqModel::new(s.clone());
                 let who = format!("{}<{}>", sc.kind.name(), sc.ty.name());
                 let mut vals: Vec<(How, AnyVal, u64)> = Vec::new();
-                for how in How::PATHS {
+                let lm = (sc.plan_seed >> 8) as u8;
+                for how in How::PATHS.into_iter().chain([How::CollectLoose(lm % 64), How::CollectLoose(64 + lm % 64)]) {
                     let t = build_tree(sc.kind, sc.ty, how, &s, Some(sc.tie_seed));
                     let v = AnyVal::Seq(t, m.clone());
                     let d = match digest(&v, ctx) {
@@ -191,7 +192,12 @@ impl Prop for C19 {
                 let m = BitModel::new(bits.clone());
                 let who = bc.kind.name();
                 let mut paths: Vec<(BvHow, WrapHow)> = vec![(BvHow::Bools, WrapHow::New), (BvHow::Pushes, WrapHow::From), (BvHow::PosUsize, WrapHow::New), (BvHow::PosU32, WrapHow::From), (BvHow::PosI64, WrapHow::New), (BvHow::ZerosThenPush, WrapHow::From), (BvHow::PosDup, WrapHow::New)];
+                let lm = (bc.plan_seed >> 8) as u8;
+                paths.push((BvHow::BoolsLoose(lm), WrapHow::New));
+                paths.push((BvHow::PosLoose(lm.wrapping_add(64)), WrapHow::From));
+                paths.push((BvHow::ExtendPieces(lm), WrapHow::New));
                 if matches!(bc.kind, BitsKind::Da0 | BitsKind::Da1 | BitsKind::Bvm) {
+                    paths.push((BvHow::BoolsLoose(lm.wrapping_add(128)), WrapHow::Collect));
                     paths.push((BvHow::Bools, WrapHow::Collect));
                     paths.push((BvHow::PosUsize, WrapHow::Collect));
                 }
@@ -240,7 +246,8 @@ impl Prop for C19 {
                 let q = qc.content.expand();
                 let m = QuadModel::new(q.clone());
                 let who = qc.kind.name();
-                let paths = [QuadHow::FromQVector(IntTy::U8), QuadHow::FromQVector(IntTy::I64), QuadHow::NewSlice(IntTy::U16), QuadHow::NewSlice(IntTy::U128), QuadHow::Collect(IntTy::I8), QuadHow::Collect(IntTy::Usize), QuadHow::Builder(4), QuadHow::Builder(17), QuadHow::Builder(1)];
+                let paths = [QuadHow::FromQVector(IntTy::U8), QuadHow::FromQVector(IntTy::I64), QuadHow::NewSlice(IntTy::U16), QuadHow::NewSlice(IntTy::U128), QuadHow::Collect(IntTy::I8), QuadHow::Collect(IntTy::Usize), QuadHow::Builder(4), QuadHow::Builder(17), QuadHow::Builder(1),
+                    QuadHow::CollectLoose(IntTy::U8, (qc.plan_seed >> 8) as u8), QuadHow::CollectLoose(IntTy::I32, 64 + (qc.plan_seed >> 16) as u8 % 64), QuadHow::BuilderPieces((qc.plan_seed >> 24) as u8)];
                 let mut vals: Vec<(QuadHow, AnyVal, u64)> = Vec::new();
                 for p in paths {
                     let v = AnyVal::Quad(QuadVal::build(qc.kind, p, &q, qc.salt), m.clone());
